@@ -318,6 +318,14 @@ def judge_select(p: Partial, kp, old, old_scores, snaps_before, snaps_after, cfg
     if len(set(idx)) != len(idx):
         p.viol(f"{kp}/index/duplicate-in-new-population", f"indices of the new population {idx}; cfg={cfg}", rp)
         ok = False
+    # the returned elite and the members of the new generation are separate copies: mutating or training the new
+    # generation must not reach the elite (nor one member another)
+    if elite is not None and any(m is elite for m in new):
+        p.viol(f"{kp}/elite/same-object-as-new-member", f"the returned elite IS new[{[m is elite for m in new].index(True)}] (no separate copy); cfg={cfg}", rp)
+        ok = False
+    if len({id(m) for m in new}) != len(new):
+        p.viol(f"{kp}/new-population/same-object-twice", f"one object appears twice in the new population; cfg={cfg}", rp)
+        ok = False
     return ok, src
 
 
@@ -368,7 +376,14 @@ def run_a1(task, p: Partial):
         ts = TournamentSelection(k, el, ps, pt["ev"])
         ctx = Ctx()
         pop = [Tok(ctx, i, h) for i, h in enumerate(pt["hists"])]
-        one_token_select(p, ts, pop, cfg, pt["draws"], set(range(P)), {**base, "point": pt})
+        if pt.get("reuse_shift"):
+            # the same selector object first served another population (lower indices)
+            one_token_select(Partial(), ts, pop, cfg, pt["draws"], set(range(P)), {**base, "point": pt})
+            sh = pt["reuse_shift"]
+            pop = [Tok(Ctx(), sh + i, h) for i, h in enumerate(pt["hists"])]
+            one_token_select(p, ts, pop, cfg, pt["draws"], set(range(sh, sh + P)), {**base, "point": pt})
+        else:
+            one_token_select(p, ts, pop, cfg, pt["draws"], set(range(P)), {**base, "point": pt})
         p.traces += 1
         return
     hs = HIST_MENU[task["hist"]]
@@ -386,6 +401,14 @@ def run_a1(task, p: Partial):
                 rp = {**base, "point": {"ev": ev, "hists": [list(h) for h in hists], "draws": draws}}
                 ok, elite, new = one_token_select(p, ts, pop, cfg, draws, set(range(P)), rp)
                 p.traces += 1
+            # selector reuse: a selector object that already served a population is handed an unrelated population with
+            # higher indices (islands sharing one selector, an immigrant): the guarantees are per call, not per selector
+            ts2 = TournamentSelection(k, el, ps, ev)
+            d0 = scripts[0]
+            rp2 = {**base, "point": {"ev": ev, "hists": [list(h) for h in hists], "draws": d0, "reuse_shift": 10}}
+            one_token_select(Partial(), ts2, [Tok(Ctx(), i, h) for i, h in enumerate(hists)], cfg, d0, set(range(P)), rp2)
+            one_token_select(p, ts2, [Tok(Ctx(), 10 + i, h) for i, h in enumerate(hists)], cfg, d0, set(range(10, 10 + P)), rp2)
+            p.traces += 1
             p.dg(ev, hists, len(scripts))
     p.states += len(states)
     p.sample({"layer": "a1", "P": P, "population_size": ps, "k": k, "elitism": el, "histories": len(hs) ** (P - 1) * len(first),
